@@ -335,14 +335,19 @@ class NumpyTheory:
             return v.t
         return None
 
+    def np_np_empty(self, args, kw, st, node):
+        if isinstance(args[0], VTuple) and len(args[0].items) == 3:
+            return self.mat_empty(args[0].items, st, node)
+        return None
+
     def np_np_tile(self, args, kw, st, node):
         return self.mat_tile(args[0], args[1], st, node)
 
     def np_np_zeros(self, args, kw, st, node):
         a0 = args[0]
-        if isinstance(a0, VList) and not a0.nd and const_int(st.heap.lists[a0.ref].length) == 2 and st.heap.lists[a0.ref].etype == 'int':
+        if isinstance(a0, VList) and not a0.nd and const_int(st.heap.lists[a0.ref].length) in (2, 3) and st.heap.lists[a0.ref].etype == 'int':
             L = st.heap.lists[a0.ref].leaves[0]
-            return self.mat_zeros([VInt(z3.simplify(L[0])), VInt(z3.simplify(L[1]))], kw.get('dtype'), st, node)
+            return self.mat_zeros([VInt(z3.simplify(L[q])) for q in range(const_int(st.heap.lists[a0.ref].length))], kw.get('dtype'), st, node)
         if isinstance(a0, VTuple) and len(a0.items) == 2 and isinstance(kw.get('dtype'), VFunc) and kw['dtype'].kind == 'matdtype':
             return self.mat_zeros(a0.items, kw.get('dtype'), st, node)
         n = self._shape1(args[0])
@@ -511,6 +516,8 @@ class NumpyTheory:
         st.assume(z3.ForAll([j, j2], z3.Implies(z3.And(j >= 0, j < j2, j2 < m), U[j] < U[j2])))
         st.assume(z3.ForAll([j], z3.Implies(z3.And(j >= 0, j < m), z3.And(src(j) >= 0, src(j) < c.length, X[src(j)] == U[j]))))
         st.assume(z3.ForAll([k], z3.Implies(z3.And(k >= 0, k < c.length), z3.And(pos(k) >= 0, pos(k) < m, U[pos(k)] == X[k]))))
+        if 'unique-count' not in getattr(self.cur, 'theory', ()):
+            return VList(res.ref, nd=True)
         # counting fact (pigeonhole, not derivable by instantiation): as many distinct values as elements  <=>  no value occurs twice
         d1, d2 = z3.Int(fresh_name('dup')), z3.Int(fresh_name('dup'))
         i2, j3 = z3.Int(fresh_name('i')), z3.Int(fresh_name('j'))
@@ -577,6 +584,8 @@ class NumpyTheory:
         st.assume(z3.ForAll([i, j], z3.Implies(z3.And(i >= 0, i < j, j < m), R[i] < R[j])))
         st.assume(z3.ForAll([i], z3.Implies(z3.And(i >= 0, i < m), z3.And(ia(i) >= 0, ia(i) < ca.length, A[ia(i)] == R[i], ib(i) >= 0, ib(i) < cb.length, B[ib(i)] == R[i]))))
         st.assume(z3.ForAll([p, q], z3.Implies(z3.And(p >= 0, p < ca.length, q >= 0, q < cb.length, A[p] == B[q]), z3.And(pos(p, q) >= 0, pos(p, q) < m, R[pos(p, q)] == A[p]))))
+        if 'intersect1d-L1' not in getattr(self.cur, 'theory', ()):
+            return VList(res.ref, nd=True)
         # consequence of the three facts above by lemma L1 (lean/L1_sorted_same_members.lean: strictly sorted lists with the same members
         # are equal), which instantiation cannot find (induction): a strictly increasing first argument contained in the second is returned as is
         i2, j2, k2, e2 = z3.Int(fresh_name('i')), z3.Int(fresh_name('j')), z3.Int(fresh_name('k')), z3.Int(fresh_name('e'))
